@@ -8,9 +8,84 @@ import Model.Math.Nothing
 import Model.Math.Normal
 import Model.Math.Render
 import Model.Spec.MathSpec
+import Proofs.Lemmas.C13Exact
 
 namespace C13
 open Math
+
+/-! ## samples are sorted on construction -/
+
+/-- **new_sample_sorted** — `NewSample` keeps exactly the given measurements (as a multiset), in
+ascending order, and stores the thresholds. -/
+theorem new_sample_sorted {α : Type} [LinearOrder α] [Val α] [LawfulVal α] (vals : List α) (t : Thresholds) :
+    (newSample vals t).values.Pairwise (· ≤ ·) ∧ (newSample vals t).values.Perm vals ∧
+    (newSample vals t).thresholds = t :=
+  ⟨sortVals_pairwise vals, sortVals_perm vals, rfl⟩
+
+/-! ## AssumeExact -/
+
+/-- **exact_summary_spec** — on a sorted non-empty sample the exact model's centre is a most
+frequent value, the smallest such; Lo and Hi are the minimum and the maximum; the confidence is
+1; a warning is raised exactly when two values differ. -/
+theorem exact_summary_spec {α : Type} [LinearOrder α] [Val α] [LawfulVal α] (s : Sample α)
+    (hne : s.values ≠ []) (hs : s.values.Pairwise (· ≤ ·)) :
+    ∃ r, Exact.summary s = some r ∧
+      r.center ∈ s.values ∧
+      (∀ x, s.values.count x ≤ s.values.count r.center) ∧
+      (∀ x, s.values.count x = s.values.count r.center → r.center ≤ x) ∧
+      (∃ lo ∈ s.values, r.lo = .fin lo ∧ ∀ x ∈ s.values, lo ≤ x) ∧
+      (∃ hi ∈ s.values, r.hi = .fin hi ∧ ∀ x ∈ s.values, x ≤ hi) ∧
+      r.confidence = F64.one ∧
+      (r.warnings ≠ [] ↔ ∃ x ∈ s.values, ∃ y ∈ s.values, x ≠ y) := by
+  obtain ⟨vals, t⟩ := s
+  cases vals with
+  | nil => exact absurd rfl hne
+  | cons v0 rest =>
+    simp only at hs
+    have spec := modeScan_spec rest [v0] v0 1 v0 1 (by simpa using hs) (by simp) (by simp) (by simp) (by simp)
+      (le_refl 1)
+      (by intro x; simp only [List.count_cons, List.count_nil]; split <;> omega)
+      (by
+        intro x hx
+        simp only [List.count_cons, List.count_nil] at hx
+        split at hx
+        · rename_i h; simp at h; exact le_of_eq h
+        · omega)
+    simp only [List.singleton_append] at spec
+    obtain ⟨h1, h2, h3, h4⟩ := spec
+    refine ⟨_, rfl, ?_, ?_, ?_, ?_, ?_, rfl, ?_⟩
+    · apply List.count_pos_iff.mp; rw [← h1]; exact h2
+    · intro x; rw [← h1]; exact h3 x
+    · intro x hx; rw [← h1] at hx; exact h4 x hx
+    · exact ⟨v0, by simp, rfl, by
+        intro x hx
+        rcases List.mem_cons.mp hx with h | h
+        · exact le_of_eq h.symm
+        · exact (List.pairwise_cons.mp hs).1 x h⟩
+    · exact ⟨rest.getLastD v0, getLastD_mem rest v0, rfl, le_getLastD rest v0 hs⟩
+    · simp only
+      constructor
+      · intro hw
+        by_contra hall
+        apply hw
+        have heq : ∀ x ∈ v0 :: rest, x = v0 := by
+          intro x hx
+          by_contra hxv
+          exact hall ⟨x, hx, v0, by simp, hxv⟩
+        have hcnt : (v0 :: rest).count v0 = (v0 :: rest).length :=
+          List.count_eq_length.mpr (fun x hx => (heq x hx).symm)
+        have := h3 v0
+        have hle : (Exact.modeScan v0 1 v0 1 rest).2 ≤ (v0 :: rest).length := by
+          rw [h1]; exact List.count_le_length
+        have : (Exact.modeScan v0 1 v0 1 rest).2 = (v0 :: rest).length := by omega
+        simp [this]
+      · rintro ⟨x, hx, y, hy, hxy⟩ hw
+        have hlen : (Exact.modeScan v0 1 v0 1 rest).2 = (v0 :: rest).length := by
+          by_contra hne'
+          simp [hne'] at hw
+        rw [h1] at hlen
+        have hall := List.count_eq_length.mp hlen
+        exact hxy ((hall x hx).symm.trans (hall y hy))
 
 /-! ## the significance threshold is carried -/
 
